@@ -221,7 +221,7 @@ func chainStreams(c *mon.Ctx, h *hostile.Harness) {
 			o.Directive.Change = nil
 		}
 		kind := "random"
-		switch k.Index % 8 {
+		switch r.Intn(8) { // (not k.Index: the index is correlated with the shard)
 		case 0: // many small transactions
 			kind = "many-transactions"
 			o.Txs = nil
@@ -293,7 +293,7 @@ func chainStreams(c *mon.Ctx, h *hostile.Harness) {
 		r := k.R
 		w.pool = txpool.VerifNewPool(ctx, nil, w.n.Log, w.n.Conn, w.n.ABI)
 		tx := w.n.NewTx(w.n.Universe[r.Intn(nValidators)], uint64(r.Intn(5)), uint64(1000+r.Intn(100000)), node.TxVerifyOK, node.TxExecOK, r.Intn(200))
-		if k.Index%6 == 0 { // more signatures
+		if r.Intn(6) == 0 { // more signatures
 			for i := 0; i < 1+r.Intn(5); i++ {
 				tx.Signatures = append(tx.Signatures, bytes.Repeat([]byte{byte(i)}, 64))
 			}
@@ -516,7 +516,7 @@ func chainStreams(c *mon.Ctx, h *hostile.Harness) {
 			if w = getWorld(k); w == nil {
 				return
 			}
-			if k.Index%3 == 0 && w.n.Exec.VerifBlockValidator(ctx, &p2p.Message{Data: enc}) == p2p.ValidationAccept {
+			if r.Intn(3) == 0 && w.n.Exec.VerifBlockValidator(ctx, &p2p.Message{Data: enc}) == p2p.ValidationAccept {
 				out := w.deliverBlock(k, h, "aggregate:"+v.class, enc)
 				k.Nontrivial("deliver-aggregate|" + v.class + "|" + out)
 			}
@@ -561,7 +561,7 @@ func chainStreams(c *mon.Ctx, h *hostile.Harness) {
 		}
 		var ids [][]byte
 		nIDs := 1 + r.Intn(20)
-		if k.Index%16 == 0 {
+		if r.Intn(16) == 0 {
 			nIDs = 1500 + r.Intn(500) // ~64 KiB request
 		}
 		for i := 0; i < nIDs; i++ {
@@ -578,7 +578,7 @@ func chainStreams(c *mon.Ctx, h *hostile.Harness) {
 			txpool.RPCEndpointGetTransactions:      nil,
 		}
 		procs := []string{lsync.RPCEndpointGetLastBlock, lsync.RPCEndpointGetHighestCommonBlock, lsync.RPCEndpointGetBlocksFromID, txpool.RPCEndpointGetTransactions}
-		proc := procs[k.Index%len(procs)]
+		proc := procs[r.Intn(len(procs))]
 		o := defaultOpts
 		if nIDs > 100 {
 			o.capMutants = 300
@@ -632,7 +632,7 @@ func chainStreams(c *mon.Ctx, h *hostile.Harness) {
 		r := k.R
 		s := w.n.Exec.VerifSyncer()
 		from := r.Intn(len(w.chain) - 1)
-		if k.Index%4 != 0 { // short answers mostly: a few blocks
+		if r.Intn(4) != 0 { // short answers mostly: a few blocks
 			from = len(w.chain) - 2 - r.Intn(4)
 		}
 		cw := &capWriter{}
